@@ -229,6 +229,83 @@ def o2_cancel(chk, prog, n):
     chk.end(ob)
 
 
+@expectation('c10_roundtrip')
+def c10_roundtrip(want_cancels):
+    def f(res):
+        r = res[0]
+        if 'panic' in r or 'error' in r:
+            return False, 'native: %r' % (r,)
+        got = sorted(tuple(x) for x in r['cancels'])
+        want = sorted(tuple(x) for x in want_cancels)
+        return got != want, 'native: CancelRequests received by the servers %r, required %r' % (got, want)
+    return f
+
+
+def o3_roundtrip(chk, prog, nclaims):
+    """Independent of how the cancel map represents its keys: the map is filled ONLY by the code's own Server::claim, and looked up ONLY
+    by the code's own cancel path."""
+    name = 'O3-roundtrip-%dclaims' % nclaims
+    ob = chk.begin(name, '%d servers claim themselves (Server::claim) for clients with SYMBOLIC (pid, key); then Client::handle in cancel mode with '
+                   'a SYMBOLIC requested (pid, key): a CancelRequest goes out iff the requested pair equals a claimed pair in BOTH halves, and then '
+                   'to exactly that server with that server\'s own (pid, key)' % nclaims, {'claims': nclaims})
+    claim = fn(prog, 'Server::claim')
+    handle = fn(prog, 'Client::handle')
+    ip = chk.interp(prog, name)
+    install_stats_noops(ip)
+
+    def cancel_rec(c, host, port, pid, key):
+        c.ip.env.setdefault('cancels', []).append((host, port, pid, key))
+        return Opaque('IoFuture', 'cancel', None)
+    ip.overrides.append((re.compile(r'^(?:server::)?Server::cancel$'), cancel_rec))
+
+    def poll_hook(ip_, co, ptr):
+        if isinstance(co, Opaque) and co.tag == 'cancel':
+            return EnumV(BV(64, 0), {'Ready': [EnumV(BV(64, 0), {'Ok': [unit()]}, 'Result')]}, 'Poll')
+        raise Inconclusive('poll of %r' % (co,))
+    ip.poll_hook = poll_hook
+
+    def harness(ip_):
+        csp = Ptr(Cell(Agg([MapV('hashmap')], 'Lock'), 'csmap'))
+        pairs = []
+        for i in range(nclaims):
+            cp, ck = ip_.fresh(32, 'claim%d_pid' % i), ip_.fresh(32, 'claim%d_key' % i)
+            for (p0, k0, _s) in pairs:
+                ip_.assume(z3.Not(z3.And(p0.z() == cp.z(), k0.z() == ck.z())))
+            srv = mk_server(ip_, prog, StreamV([], 'server%d' % i), process_id=BV(32, 5000 + i), secret_key=BV(32, 6000 + i), client_server_map=csp)
+            ip_.call_function(claim, [Ptr(Cell(srv, 'server%d' % i)), cp, ck])
+            pairs.append((cp, ck, i))
+        rp, rk = ip_.fresh(32, 'req_pid'), ip_.fresh(32, 'req_key')
+        cl = mk_client(ip_, prog, cancel_mode=BV(1, 1), process_id=rp, secret_key=rk, client_server_map=csp)
+        ip_.drive(ip_.call_function(handle, [Ptr(Cell(cl, 'client'))]))
+        ob.nontrivial += 1
+        cancels = ip_.env.get('cancels', [])
+        hit = None
+        for cp, ck, i in pairs:
+            if decide(ip_, z3.And(cp.z() == rp.z(), ck.z() == rk.z())):
+                hit = i
+        bad = None
+        if hit is None and cancels:
+            bad = 'a CancelRequest is sent although the requested (pid, key) was never issued'
+        elif hit is not None and len(cancels) != 1:
+            bad = '%d CancelRequests for an issued key' % len(cancels)
+        elif hit is not None:
+            host, port, pid, key = cancels[0]
+            if ip_.model_for(z3.Not(z3.And(pid.z() == 5000 + hit, key.z() == 6000 + hit))) is not None:
+                bad = 'the CancelRequest does not carry the key of the server that claimed itself for the requester'
+        if bad:
+            mm = ip_.model_for()
+            claims = [[s32(ev(mm, cp)), s32(ev(mm, ck))] for cp, ck, _ in pairs]
+            req = [s32(ev(mm, rp)), s32(ev(mm, rk))]
+            want = [[5000 + i, 6000 + i] for i, c in enumerate(claims) if c == req]
+            chk.report(ob, 'C10/O3/roundtrip', bad + ' (claims %r, request %r)' % (claims, req), {'claims': claims, 'request': req},
+                       {'commands': [{'op': 'cancel_roundtrip', 'claims': claims, 'request': req}], 'expect': ['c10_roundtrip', want]})
+        if len(ob.samples) < 2:
+            ob.samples.append({'issued': hit is not None, 'cancels': len(cancels)})
+    ip.explore(harness)
+    chk.absorb(ob, ip)
+    chk.end(ob)
+
+
 def _dispatch(chk, f, args):
     f(chk, *args)
 
@@ -251,6 +328,8 @@ def main(chk):
         tasks.append((o1_release, (prog, n, 'release')))
         tasks.append((o1_release, (prog, n, 'drop')))
         tasks.append((o2_cancel, (prog, n)))
+    tasks.append((o3_roundtrip, (prog, 1)))
+    tasks.append((o3_roundtrip, (prog, 2)))
     chk.parallel(_dispatch, tasks)
 
     # the cancel map along whole sessions (Client::handle executed): the key maps to the held server, and to nothing once it is released / the client is gone
